@@ -1,7 +1,7 @@
 // Correspondence + oracle driver for C04: SAX event scripts through the real XML serializers.
 //
 // Input, one case per line:
-//   <id> <encoding> <version 1.0|1.1> <event>*
+//   <id> <encoding> <version 1.0|1.1> [-L] <event>*        (-L: do not run the legacy serializer)
 //   event ::= S <u:name> <n> (<u:attrname> <u:attrvalue>){n}   startElement
 //           | E <u:name>                                        endElement
 //           | T <u:text>                                        characters
@@ -16,6 +16,7 @@
 //   <..parse> = the bytes re-parsed by Xerces SAX2 (namespaces on, encoding taken from the document),
 //             printed as an event script with adjacent text coalesced, or PARSEERR:<message>, or '-'
 #include "common.hpp"
+#include <sys/resource.h>
 #include <xercesc/sax2/SAX2XMLReader.hpp>
 #include <xercesc/sax2/XMLReaderFactory.hpp>
 #include <xercesc/sax2/DefaultHandler.hpp>
@@ -164,6 +165,8 @@ static std::string reparse(const std::string& bytes)
 
 int main(int argc, char** argv)
 {
+    // safety net: a runaway allocation (XalanOutputStream::transcode doubling its buffer) ends as bad_alloc
+    struct rlimit rl; rl.rlim_cur = rl.rlim_max = (rlim_t) 1 << 30; setrlimit(RLIMIT_AS, &rl);
     Init init;
     std::istream* in = &std::cin;
     std::ifstream f;
@@ -174,7 +177,8 @@ int main(int argc, char** argv)
         if (t.size() < 3 || t[0][0] == '#') continue;
         std::vector<Event> evs;
         bool bad = false;
-        for (size_t i = 3; i < t.size() && !bad; ) {
+        const bool nolegacy = t.size() > 3 && t[3] == "-L";
+        for (size_t i = nolegacy ? 4 : 3; i < t.size() && !bad; ) {
             Event e; e.kind = t[i][0];
             switch (e.kind) {
             case 'S': {
@@ -200,7 +204,7 @@ int main(int argc, char** argv)
         std::string nb, ob;
         std::string ns = serialize(false, t[1], t[2], evs, nb);
         std::string np = ns.compare(0, 3, "ok:") == 0 ? reparse(nb) : std::string("-");
-        std::string osn = serialize(true, t[1], t[2], evs, ob);
+        std::string osn = nolegacy ? std::string("skipped") : serialize(true, t[1], t[2], evs, ob);
         std::string op = osn.compare(0, 3, "ok:") == 0 ? reparse(ob) : std::string("-");
         std::cout << t[0] << ' ' << ns << '|' << np << '|' << osn << '|' << op << std::endl;
     }
